@@ -28,11 +28,9 @@ parts = [
   Item(CMD, "enum", "ZmtpCommand"),
   Fn(CMD, "parse_properties", impl=r"impl\s+ZmtpReady\b", emit_impl="impl ZmtpReady",
      ensures=[("C07:total", "r is Ok || r is Err")],
-     extra=[("R5", "let mut props = HashMap::new();", "let mut props = verif_props_new();", 1),
-            ("R5", "std::io::Cursor::new(body)", "VCursor::new(body)", 1),
+     extra=[("R5", "std::io::Cursor::new(body)", "VCursor::new(body)", 1),
             ("R8", re.compile(r"String::from_utf8\(name_bytes\.to_vec\(\)\)\s*\.map_err\(\|_\| ZmqError::ProtocolViolation\(verif_fmt\(\)\)\)\?", re.S),
-             "match verif_string_from_utf8(name_bytes.to_vec()) { Ok(s) => s, Err(_) => { return Err(ZmqError::ProtocolViolation(verif_fmt())); } }", 1),
-            ("R5", "props.insert(name, value_bytes.to_vec());", "verif_props_insert(&mut props, name, value_bytes.to_vec());", 1)],
+             "match verif_string_from_utf8(name_bytes.to_vec()) { Ok(s) => s, Err(_) => { return Err(ZmqError::ProtocolViolation(verif_fmt())); } }", 1)],
      loops={0: {"invariant": ["cursor.data() == body@", "cursor.pos() <= body@.len()"],
                 "decreases": "body@.len() - cursor.pos()"}}),
   Fn(CMD, "create_pong", impl=r"impl\s+ZmtpCommand\b", emit_impl="impl ZmtpCommand",
